@@ -20,7 +20,8 @@ ID = "C13"
 LEVEL = "exploration"
 RULE = (
     "team directories: 3 variants of config-base variable sets x cars {c1(base A), c2(bases A,B), c3(base B), m1, m2 (mixins without base; m1 "
-    "also sets Rally's node variable names)}; car lists: every ordered selection of 1..3 distinct cars (85) x every subset of car "
+    "also sets Rally's node variable names), c4(bases B,A,B), c5(bases A,A)}; base A carries the same file name at two directory levels; "
+    "car lists: every ordered selection of 1..3 distinct cars (quick: triples only over c1..m2) x every subset of car "
     "parameters {heap, a, http_port, data_paths}; provisioning of every composition that has a config base; cleanup with preserve on/off x "
     "data paths {default, sibling sharing the install dir's name prefix, external}. non-trivial = list of >= 2 cars or non-empty params; distinct = configuration"
 )
@@ -60,7 +61,11 @@ CARS = {
     "c3": (["B"], {"a": "c3-a"}),
     "m1": ([], {"heap": "4g", "c": "m1-c", "network_host": "evil-host", "node_name": "evil-name", "http_port": "1"}),
     "m2": ([], {"a": "m2-a"}),
+    # a car that names the same config base twice in its own list
+    "c4": (["B", "A", "B"], {"c": "c4-c"}),
+    "c5": (["A", "A"], {}),
 }
+CORE_CARS = ["c1", "c2", "c3", "m1", "m2"]
 PARAMS = {"heap": "6g", "a": "param-a", "http_port": "2", "data_paths": None}  # data_paths filled per case
 
 
@@ -82,6 +87,12 @@ def team_dir(variant):
                 f.write("-Xmx{{heap|default('default-heap')}}\n")
             with open(os.path.join(t, "sub", "deep.txt"), "w") as f:
                 f.write("deep a={{a}}\n")
+            # same file name at two levels of one config base
+            with open(os.path.join(t, "sub", "jvm.options"), "w") as f:
+                f.write("# sub-level options\n-Xms{{heap|default('sub-heap')}}\n")
+            os.makedirs(os.path.join(t, "sub", "deeper"))
+            with open(os.path.join(t, "sub", "deeper", "deep.txt"), "w") as f:
+                f.write("deeper b={{b|default('no-b')}}\n")
             with open(os.path.join(t, "bin.dat"), "wb") as f:
                 f.write(BINARY)
         else:
@@ -278,7 +289,7 @@ def check_case(variant, names, pkeys, data_mode, preserve, res):
 
 def cases(tier):
     names = list(CARS)
-    lists = [p for n in (1, 2, 3) for p in itertools.permutations(names, n)]
+    lists = [p for n in (1, 2, 3) for p in itertools.permutations(names, n) if tier == "thorough" or n < 3 or all(x in CORE_CARS for x in p)]
     pk = list(PARAMS)
     subsets = [c for n in range(len(pk) + 1) for c in itertools.combinations(pk, n)]
     for variant in range(len(BASE_VARIANTS)):
